@@ -1412,7 +1412,7 @@ fn generate(tier: &str, seed: u64) -> (Vec<String>, BTreeMap<String, u64>) {
         &sv(&[
             "req:1:ok:s", "close", "poll", "open:e:3:2:15:1000:180", "open:e:3:2:33:1000:180", "open:b:3:2:15:2000:180", "open:e:3:2:16:1000:179",
             "open:b:3:2:16:1000:901", "open:e:3:2:16:1000:900", "open:b:1:1:32:2000:300", "req:1:ok:s", "p1:1:3:own:s", "p3:1:own:s", "ack:1", "poll",
-            "adv:899000", "poll", "adv:2000", "poll", "poll", "open:b:1:1:32:2000:180", "adv:180000", "poll", "adv:1", "req:2:ok:s",
+            "adv:899000", "poll", "adv:2000", "poll", "poll", "open:b:1:1:32:2000:180", "adv:179000", "poll", "adv:2000", "req:2:ok:s",
         ]),
     );
     // every request / Pake1 / Pake3 variant, followed by the rest of an otherwise honest handshake
@@ -1575,7 +1575,8 @@ fn generate(tier: &str, seed: u64) -> (Vec<String>, BTreeMap<String, u64>) {
             let e = rng.range(1, 3) as usize;
             let roll = rng.below(100);
             if roll < 8 {
-                ops.push((*rng.pick(&["close", "poll", "adv:3000", "adv:30000", "adv:61000", "adv:200000"])).to_string());
+                // (amounts whose sums stay clear of the 60 s / 180 s / 280 s / 380 s deadlines: the device runs on the real clock)
+                ops.push((*rng.pick(&["close", "poll", "adv:3100", "adv:29000", "adv:61000", "adv:200000"])).to_string());
             } else if roll < 12 {
                 ops.push(format!("open:b:{}:{}:{}:2000:{}", rng.range(1, 2), rng.range(1, 3), rng.range(16, 32), 180 + rng.below(3) * 100));
             } else if roll < 80 {
